@@ -87,9 +87,10 @@ fn ident_tokens(s: &str) -> Vec<(usize, usize)> {
                 i += 1;
             }
             i += 1;
-        } else if c.is_ascii_alphabetic() || c == '_' || c == '$' {
+        } else if c.is_ascii_alphabetic() || c == '_' || c == '$' || b[i] >= 0x80 {
+            // (bytes of non-ASCII letters count as identifier characters: Bêta is one identifier)
             let st = i;
-            while i < b.len() && ((b[i] as char).is_ascii_alphanumeric() || b[i] == b'_' || b[i] == b'$') {
+            while i < b.len() && ((b[i] as char).is_ascii_alphanumeric() || b[i] == b'_' || b[i] == b'$' || b[i] >= 0x80) {
                 i += 1;
             }
             out.push((st, i));
@@ -105,7 +106,7 @@ fn parse_decl(text: &str) -> Option<(String, &'static str)> {
     let t = clean.trim_start();
     for (kw, kind) in [("type ", "type"), ("interface ", "interface"), ("enum ", "enum"), ("const ", "const")] {
         if let Some(rest) = t.strip_prefix(kw) {
-            let name: String = rest.chars().take_while(|c| c.is_ascii_alphanumeric() || *c == '_' || *c == '$').collect();
+            let name: String = rest.chars().take_while(|c| c.is_alphanumeric() || *c == '_' || *c == '$').collect();
             if !name.is_empty() {
                 return Some((name, kind));
             }
